@@ -166,6 +166,10 @@ var referenceHashes = []string{
 	"$md5$rounds=5000$aaa$", "$md5,rounds=0$", "$md5,rounds=77$abc",
 }
 
+// lastCaseMeta: the description of the unmarshal case added last; a search result ("property_fails") may be
+// attached to it before the case set is flushed (used by bin/check when the correspondence breaks at that case)
+var lastCaseMeta map[string]interface{}
+
 type codecCase struct {
 	tname string
 	gt    *gType // nil for hand/shipped shapes
@@ -223,7 +227,8 @@ func corrCodec(prop string, outDir string, seed uint64, tier string, withEdits b
 	unmarshalCase := func(tc codecCase, h string, kind string) (reflect.Value, error, interface{}) {
 		p := reflect.New(tc.t)
 		err, pan := unmarshalObs(h, p.Interface())
-		csU.add("("+tc.tname+", "+coqStr(h)+", "+obsUnmarshalCoq(p, err, pan)+")", map[string]interface{}{"type": tc.t.String(), "hash": h, "kind": kind})
+		lastCaseMeta = map[string]interface{}{"type": tc.t.String(), "hash": h, "kind": kind}
+		csU.add("("+tc.tname+", "+coqStr(h)+", "+obsUnmarshalCoq(p, err, pan)+")", lastCaseMeta)
 		if csR != nil && err == nil && pan == nil {
 			csR.add("("+tc.tname+", "+coqStr(h)+", "+obsUnmarshalCoq(p, err, pan)+")", map[string]interface{}{"type": tc.t.String(), "hash": h, "kind": "C20 statement"})
 		}
